@@ -412,6 +412,132 @@ impl Program {
         .ty(t)
     }
 
+    /// For every definition and parameter: can the argument influence the wire shape of an
+    /// instantiation? (not skipped, and used somewhere outside PhantomData and outside argument
+    /// positions that are themselves without influence)
+    pub fn wire_used(&self) -> Vec<Vec<bool>> {
+        let mut used: Vec<Vec<bool>> = self.defs.iter().map(|d| vec![false; d.params.len()]).collect();
+        fn occurs(t: &Ty, i: usize, used: &Vec<Vec<bool>>) -> bool {
+            match t {
+                Ty::Param(j) | Ty::Assoc(j) => *j == i,
+                Ty::Phantom(_) => false,
+                Ty::Def(d, args) => args.iter().enumerate().any(|(k, a)| used[*d].get(k).copied().unwrap_or(false) && occurs(a, i, used)),
+                other => other.children().into_iter().any(|c| occurs(c, i, used)),
+            }
+        }
+        loop {
+            let mut changed = false;
+            for (d, def) in self.defs.iter().enumerate() {
+                for i in 0..def.params.len() {
+                    if used[d][i] || def.params[i].skipped {
+                        continue;
+                    }
+                    if def.all_fields().iter().any(|f| occurs(&f.ty, i, &used)) {
+                        used[d][i] = true;
+                        changed = true;
+                    }
+                }
+            }
+            if !changed {
+                return used;
+            }
+        }
+    }
+
+    /// the definition as far as the registry's type graph records it: pointers, sequence kinds,
+    /// PhantomData, parameter names, docs, the spelling of compact and arguments without influence erased
+    pub fn erased_def(&self, d: usize, used: &Vec<Vec<bool>>) -> String {
+        fn ty(p: &Program, t: &Ty, used: &Vec<Vec<bool>>) -> String {
+            let l = |v: &[Ty]| v.iter().filter(|t| !matches!(t, Ty::Phantom(_))).map(|t| ty(p, t, used)).collect::<Vec<_>>().join(",");
+            match t {
+                Ty::Param(i) => format!("${i}"),
+                Ty::Assoc(i) => format!("${i}::Inner"),
+                Ty::Prim(x) => x.name().to_string(),
+                Ty::StrSlice => "String".into(),
+                Ty::Def(d, a) => {
+                    let args: Vec<String> = a.iter().enumerate().filter(|(k, _)| used[*d].get(*k).copied().unwrap_or(false)).map(|(_, t)| ty(p, t, used)).collect();
+                    format!("{}<{}>", p.defs[*d].path.join("::"), args.join(","))
+                }
+                Ty::Tuple(a) => format!("({})", l(a)),
+                Ty::Array(n, t) => format!("[{};{n}]", ty(p, t, used)),
+                Ty::Seq(_, t) => format!("Vec<{}>", ty(p, t, used)),
+                Ty::Opt(t) => format!("Option<{}>", ty(p, t, used)),
+                Ty::Res(a, b) => format!("Result<{},{}>", ty(p, a, used), ty(p, b, used)),
+                Ty::Ptr(_, t) => ty(p, t, used),
+                Ty::Cow(t) => format!("Cow<{}>", ty(p, t, used)),
+                Ty::Map(a, b) => format!("Map<{},{}>", ty(p, a, used), ty(p, b, used)),
+                Ty::Set(t) => format!("Set<{}>", ty(p, t, used)),
+                Ty::Heap(t) => format!("Heap<{}>", ty(p, t, used)),
+                Ty::Range(t) => format!("Range<{}>", ty(p, t, used)),
+                Ty::RangeIncl(t) => format!("RangeIncl<{}>", ty(p, t, used)),
+                Ty::NonZero(x) => format!("NonZero<{}>", x.name()),
+                Ty::Duration => "Duration".into(),
+                Ty::Compact(t) => format!("Compact<{}>", ty(p, t, used)),
+                Ty::BitVec(s, m) => format!("BitVec<{},{}>", s.name(), m),
+                Ty::BitVecP(a, b) => format!("BitVec<{},{}>", ty(p, a, used), ty(p, b, used)),
+                Ty::BitOrder(m) => format!("{m}"),
+                Ty::Phantom(_) => String::new(),
+            }
+        }
+        let def = &self.defs[d];
+        let fields = |f: &Fields| -> String {
+            f.list()
+                .iter()
+                .filter(|fd| !matches!(fd.ty, Ty::Phantom(_)))
+                .map(|fd| {
+                    let t = ty(self, &fd.ty, used);
+                    format!("{}:{}", fd.name.clone().unwrap_or_default(), if fd.compact_attr { format!("Compact<{t}>") } else { t })
+                })
+                .collect::<Vec<_>>()
+                .join(";")
+        };
+        let live: Vec<usize> = (0..def.params.len()).filter(|i| !def.params[*i].skipped).collect();
+        // named / unnamed / no field at all (a list of PhantomData fields only is no field at all)
+        let form = |f: &Fields| -> &'static str {
+            if f.list().iter().all(|fd| matches!(fd.ty, Ty::Phantom(_))) {
+                "unit"
+            } else if matches!(f, Fields::Named(_)) {
+                "named"
+            } else {
+                "unnamed"
+            }
+        };
+        match &def.body {
+            Body::Struct(f) => format!("struct<{live:?}>{}{{{}}}", form(f), fields(f)),
+            Body::Enum(vs) => format!(
+                "enum<{live:?}>{{{}}}",
+                vs.iter().map(|v| format!("{}={}{}{{{}}}", v.name, v.index, form(&v.fields), fields(&v.fields))).collect::<Vec<_>>().join("|")
+            ),
+        }
+    }
+
+    /// the source text of one definition (docs, attributes, spelling), without its index
+    pub fn def_surface(&self, d: usize) -> String {
+        let text = self.to_text();
+        let chunk = text.split("// def ").nth(d + 1).unwrap_or("");
+        let body = chunk.split_once('\n').map(|x| x.1).unwrap_or("");
+        body.split("// roots:").next().unwrap_or("").to_string()
+    }
+
+    /// Pairs of definitions at one path that the registry's type graph cannot tell apart (equal after
+    /// erasure) although their source differs (docs, Box placement, spelling, an argument without
+    /// influence). A generator that keeps ONE item per path for them necessarily picks by registry order.
+    pub fn same_shape_versions_with_different_surface(&self) -> Vec<(usize, usize)> {
+        let used = self.wire_used();
+        let mut out = vec![];
+        for a in 0..self.defs.len() {
+            for b in a + 1..self.defs.len() {
+                if self.defs[a].path == self.defs[b].path
+                    && self.erased_def(a, &used) == self.erased_def(b, &used)
+                    && self.def_surface(a) != self.def_surface(b)
+                {
+                    out.push((a, b));
+                }
+            }
+        }
+        out
+    }
+
     /// Rust-like text of the whole program (for samples and replay files)
     pub fn to_text(&self) -> String {
         let mut s = String::new();
